@@ -32,6 +32,8 @@ pub struct Nlp {
     nump: u8,
 
     /// Node, lap and position of each player.
+    // 6 bytes per player: an odd count is followed by 2 spare bytes to stay a multiple of 4
     #[br(count = nump)]
+    #[brw(pad_after = if nump % 2 == 1 { 2 } else { 0 })]
     pub info: Vec<NodeLapInfo>,
 }
